@@ -1002,6 +1002,27 @@ static void mode_cmp(Ctx& c) {
   cmp_six(c, "oo", "4", "e", static_cast<const nop::Optional<int>&>(e1), static_cast<const nop::Optional<int>&>(e2));
 }
 
+// Become(index, args...): the alternative named by the index is the one constructed from the arguments,
+// whatever else the arguments could also construct (a pointer converts to bool and to std::string)
+static void become_with_arguments(Ctx& c) {
+  // (the arguments must be able to construct every alternative: the index is a run-time value)
+  using V = nop::Variant<bool, std::string>;
+  static const char* const kText = "a literal long enough to live on the heap, not in the small-string buffer";
+  g_current = "Variant<bool,std::string>::Become(index, const char*)";
+  auto check = [&](const char* what, V& v, int want) {
+    c.stat("Become with arguments");
+    if (v.index() != want) c.line('X', std::string("C12 Become-with-arguments-selected-another-alternative ") + what + " index=" + std::to_string(v.index()));
+  };
+  { V v; v.Become(0, kText); check("Become(0, const char*)", v, 0);
+    if (v.is<bool>() && *v.get<bool>() != true) c.line('X', "C12 Become-with-arguments-wrong-value Become(0, const char*)"); }
+  { V v{std::string("x")}; v.Become(0, kText); check("Become(0, const char*) over a string", v, 0);
+    if (v.is<bool>() && *v.get<bool>() != true) c.line('X', "C12 Become-with-arguments-wrong-value Become(0, const char*) over a string"); }
+  { V v; v.Become(1, kText); check("Become(1, const char*)", v, 1);
+    if (v.is<std::string>() && *v.get<std::string>() != kText) c.line('X', "C12 Become-with-arguments-wrong-value Become(1, const char*)"); }
+  { V v{true}; v.Become(1, kText); check("Become(1, const char*) over a bool", v, 1);
+    if (v.is<std::string>() && *v.get<std::string>() != kText) c.line('X', "C12 Become-with-arguments-wrong-value Become(1, const char*) over a bool"); }
+}
+
 int main(int argc, char** argv) {
   Ctx c;
   std::string which = "all";
@@ -1015,7 +1036,10 @@ int main(int argc, char** argv) {
     else if (a == "--which" && i + 1 < argc) which = argv[++i];
   }
   __sanitizer_set_death_callback(on_death);
-  if (c.mode == "life") mode_life(c, which);
+  if (c.mode == "life") {
+    if (c.shard == 0 && which != "optional") become_with_arguments(c);
+    mode_life(c, which);
+  }
   else if (c.mode == "cmp") { if (c.shard == 0) mode_cmp(c); }
   else if (c.mode == "uh") mode_uh(c);
   else { std::fprintf(stderr, "unknown mode\n"); return 2; }
